@@ -64,6 +64,7 @@ type rlCase struct {
 	Runner string `json:"runner"`
 	Rec    rlRec  `json:"rec"`
 	Dev    int    `json:"dev"`
+	Name   string `json:"name"`
 }
 
 type rlObs struct {
@@ -160,6 +161,7 @@ func runRl(e *limrun.Env, c rlCase) rlObs {
 // ---------------------------------------------------------------- verdict runs
 type vCase struct {
 	Runner  string `json:"runner"`
+	Name    string `json:"name"`
 	Prog    string `json:"prog"` // burn | grow | touch
 	Arg     int    `json:"arg"`  // burn: ms of user CPU (0 = until killed); grow: bytes; touch: KiB
 	CPU     int    `json:"cpu"`  // RLIMIT_CPU soft (s), 0 = unset
@@ -334,11 +336,16 @@ func runC(probe string, c cCase, capMs int) cObs {
 	return o
 }
 
-// limits run <rl.ndjson> <v.ndjson> <c.ndjson> <rlobs> <vobs> <cobs> <probe> <scratch> <parallel> <cap_ms>
+// limits run <rl.ndjson> <v.ndjson> <c.ndjson> <rlobs> <vobs> <cobs> <probe> <scratch> <parallel> <cap_ms> <essential> <budget_s>
+// All verdict and collector cases and the first <essential> limit records are always executed,
+// the remaining limit records until the budget is used up.
 func runMain(args []string) error {
-	if len(args) != 10 {
-		return fmt.Errorf("want 10 arguments")
+	if len(args) != 12 {
+		return fmt.Errorf("want 12 arguments")
 	}
+	essential, _ := strconv.Atoi(args[10])
+	budget, _ := strconv.Atoi(args[11])
+	deadline := time.Now().Add(time.Duration(budget) * time.Second)
 	rl, err := hx.ReadLines[rlCase](args[0])
 	if err != nil {
 		return err
@@ -358,6 +365,7 @@ func runMain(args []string) error {
 	}
 	capMs, _ := strconv.Atoi(args[9])
 	rlo := make([]rlObs, len(rl))
+	rlDone := make([]bool, len(rl))
 	vo := make([][]vObs, len(vs))
 	co := make([]cObs, len(cs))
 
@@ -383,6 +391,7 @@ func runMain(args []string) error {
 					vo[j.i] = runV(e, vs[j.i])
 				case 1:
 					rlo[j.i] = runRl(e, rl[j.i])
+					rlDone[j.i] = true
 				case 2:
 					co[j.i] = runC(probe, cs[j.i], capMs)
 				}
@@ -397,6 +406,9 @@ func runMain(args []string) error {
 		ch <- job{2, i}
 	}
 	for i := range rl {
+		if i >= essential && time.Now().After(deadline) {
+			break
+		}
 		ch <- job{1, i}
 	}
 	close(ch)
@@ -410,8 +422,10 @@ func runMain(args []string) error {
 	if err != nil {
 		return err
 	}
-	for _, o := range rlo {
-		w1.Write(o)
+	for i, o := range rlo {
+		if rlDone[i] {
+			w1.Write(o)
+		}
 	}
 	w1.Close()
 	w2, err := hx.NewLineWriter(args[4])
